@@ -354,13 +354,14 @@ type interp struct {
 	// evalLeaf lets an engine give meaning to expressions the core does not model.
 	evalLeaf func(in *interp, st *state, e ast.Expr) (AV, bool)
 	// condHook may decide an otherwise unknown condition.
-	steps    int
-	maxSteps int
-	overflow bool
-	memo     map[string][]AV
-	curFn    []*ast.FuncDecl
-	notes    []string
-	roundIDs int
+	steps     int
+	maxSteps  int
+	overflow  bool
+	memo      map[string][]AV
+	curFn     []*ast.FuncDecl
+	notes     []string
+	roundIDs  int
+	curAssign *ast.AssignStmt
 }
 
 func newInterp(p *Prog) *interp {
@@ -625,6 +626,9 @@ func (in *interp) zeroValue(t types.Type) AV {
 }
 
 func (in *interp) execAssign(x *ast.AssignStmt, st *state) []flow {
+	prev := in.curAssign
+	in.curAssign = x
+	defer func() { in.curAssign = prev }()
 	// op-assign
 	if x.Tok != token.ASSIGN && x.Tok != token.DEFINE {
 		st = st.clone()
